@@ -387,7 +387,8 @@ func (p *Parser) parseVar() ast.Node {
 		return nil
 	}
 	if len(idents) > 1 {
-		return ast.NewMultiVar(tok, idents, value, false)
+		// (var declares its names, like := does)
+		return ast.NewMultiVar(tok, idents, value, true)
 	}
 	return ast.NewVar(tok, idents[0], value)
 }
